@@ -207,7 +207,7 @@ func (cc *checkCtx) run(writeBaseline bool) int {
 			}
 		}
 	}
-	if cc.prop == "C12" || cc.prop == "C17" {
+	if cc.prop == "C12" || cc.prop == "C17" || cc.prop == "C14" {
 		rep := m.packageScan()
 		var keep []*Obligation
 		for _, o := range rep.Obligs {
@@ -426,6 +426,41 @@ func (cc *checkCtx) report(obs []*Obligation, reports []*FuncReport, writeBaseli
 	if writeBaseline {
 		cc.writeBaseline(okNames, badNames)
 	}
+	// bounded stand-in: always in the thorough tier; in the quick tier when something is undecided
+	var standins []interface{}
+	if cc.tier == "thorough" || len(undec) > 0 || os.Getenv("GOVC_FORCE_STANDIN") != "" {
+		sr := cc.runStandin()
+		if sr.Ran {
+			standins = append(standins, sr)
+			seenKF := map[string]bool{}
+			for _, k := range sr.Known {
+				name := k
+				if i := strings.Index(k, " :: "); i >= 0 {
+					name = k[:i]
+				}
+				if f := cc.standinFinding(name); f != nil && !seenKF[f.Obligation] {
+					seenKF[f.Obligation] = true
+					fmt.Printf("KNOWN-FINDING: property=%s %s [%s]\n", cc.prop, f.What, f.Obligation)
+				}
+			}
+			if sr.Error != "" {
+				fmt.Printf("ENGINE-ERROR: %s\n", firstLine(sr.Error))
+				undec = append(undec, "stand-in: "+firstLine(sr.Error))
+			}
+			for i, fl := range sr.Fails {
+				if i >= 5 {
+					break
+				}
+				cc.violations++
+				path := filepath.Join(s.vdir, "replays", sanitize(fmt.Sprintf("%s-standin-%d", cc.prop, i))+".txt")
+				os.WriteFile(path, []byte(fmt.Sprintf("property: %s\nbounded stand-in case failed on the real code: %s\nrerun: /verif/tools_standin.sh %s %d\n", cc.prop, fl, cc.prop, cc.seed)), 0o644)
+				fmt.Printf("VIOLATION property=%s replay=%s obligation=standin:%s\n", cc.prop, path, strings.SplitN(fl, " :: ", 2)[0])
+			}
+		}
+	}
+	if standins == nil {
+		standins = []interface{}{}
+	}
 	// evidence
 	var trusted []string
 	for a := range assumed {
@@ -447,7 +482,7 @@ func (cc *checkCtx) report(obs []*Obligation, reports []*FuncReport, writeBaseli
 		"known_findings":           kfOut,
 		"undecided":                undec,
 		"stale_contracts":          stale,
-		"bounded_standins":         []interface{}{},
+		"bounded_standins":         standins,
 	}
 	ev.Assumptions = append([]string{
 		"A-SSA: go/ssa (x/tools v0.29.0) lowers the source as the compiler executes it",
